@@ -86,6 +86,20 @@ pub struct Case {
     /// 20 ms); the recovery phase always runs on the timely 20 ms network.
     #[serde(default)]
     pub shred_delay_ms: u16,
+    /// `Some`: instead of the hostile catalogue, a client floods one validator's transaction
+    /// interface (see `run_client`)
+    #[serde(default)]
+    pub client: Option<ClientSpec>,
+}
+
+/// Client traffic towards one validator: groups of (count, payload length) transactions, sent in
+/// order at one instant. Payload lengths above `MAX_TRANSACTION_SIZE` are legal datagrams that the
+/// node has to drop.
+#[derive(Clone, Debug, Serialize, Deserialize)]
+pub struct ClientSpec {
+    pub target: u8,
+    pub at_ms: u16,
+    pub groups: Vec<(u8, u16)>,
 }
 
 pub struct C10;
@@ -108,7 +122,12 @@ impl Property for C10 {
          same / a later slot, parent switched twice, undecodable data, no parent, contradictory last flags, conflicting \
          versions); crafted validly signed shreds with odd / empty / huge payloads; genuine shreds with mutated header, \
          tag or proof; repair requests with unknown sender and out-of-range indices; unsolicited repair responses; bursts \
-         of transactions of every size up to the MTU. Oracle: the process-wide panic hook records nothing; after the \
+         of transactions of every size up to the MTU. A quarter of the cases are client floods instead: four correct validators, one receives up to ~1500 \
+         transactions at one instant (runs of maximum-size ones separated by single transactions that move the slice's \
+         free space across every residue, plus oversized ones); an observer blockstore fed with the shreds that \
+         validator disseminated as leader must reconstruct every block (never an invalid one) and the blocks must \
+         carry, in order, exactly the admissible transactions sent, all of them within the following 8.5 s. \
+         Oracle (hostile cases): the process-wide panic hook records nothing; after the \
          injection stops every correct node's finalized_slot() increases by at least two windows within 12 virtual \
          seconds and a probe repair request to every node is answered. Non-trivial: at least one hostile message that \
          passes the first validation layer (validly signed or decodable) was injected."
@@ -152,8 +171,17 @@ impl Property for C10 {
             2 => (1u8..40, prop_oneof![Just(600u16), Just(1400), Just(512), Just(513), 0u16..1490]).prop_map(|(count, len)| Hostile::Transactions { count, len }),
         ];
         let shred_delay = prop_oneof![3 => Just(0u16), 1 => 21u16..400];
-        (4u8..=6, any::<u8>(), any::<u64>(), prop::collection::vec((0u8..100, any::<u8>(), hostile), 1..40), 4u8..10, shred_delay)
-            .prop_map(|(n, byz, seed, hostile, hostile_phase_s, shred_delay_ms)| Case { n, byz, seed, hostile, hostile_phase_s, equal_stakes: false, shred_delay_ms })
+        // transaction floods: mostly runs of maximum-size transactions (62 fill a slice) separated by
+        // one transaction whose length moves the free space of the slice across every residue
+        let group = prop_oneof![
+            4 => (55u8..=62, Just(512u16)),
+            4 => (Just(1u8), 470u16..=512),
+            1 => (1u8..=3, 513u16..=1400),
+            2 => (1u8..=20, 0u16..=512),
+        ];
+        let client = (0u8..4, 0u16..6400, prop::collection::vec(group, 1..40)).prop_map(|(target, at_ms, groups)| ClientSpec { target, at_ms, groups });
+        (4u8..=6, any::<u8>(), any::<u64>(), prop::collection::vec((0u8..100, any::<u8>(), hostile), 1..40), 4u8..10, shred_delay, prop::option::weighted(0.25, client))
+            .prop_map(|(n, byz, seed, hostile, hostile_phase_s, shred_delay_ms, client)| Case { n, byz, seed, hostile, hostile_phase_s, equal_stakes: false, shred_delay_ms, client })
             .boxed()
     }
     fn max_shrink_iters(&self) -> u32 {
@@ -170,6 +198,7 @@ impl Property for C10 {
                 hostile_phase_s: 4,
                 equal_stakes: true,
                 shred_delay_ms: 0,
+                client: None,
             },
             // known finding: Byzantine leader of the first window shows its slot-1 block to some nodes only
             serde_json::from_str(include_str!("../../regress/C10-genesis-split.json")).expect("regression case parses"),
@@ -187,6 +216,7 @@ impl Property for C10 {
                 hostile_phase_s: 6,
                 equal_stakes: false,
                 shred_delay_ms: 0,
+                client: None,
             },
         ]
     }
@@ -399,7 +429,146 @@ fn hostile_bytes(h: &Hostile, n: usize, byz: usize, now_slot: u64) -> Vec<(Iface
     out
 }
 
+/// Client scenario: four correct validators, one of them receives a flood of transactions while
+/// it is not (or is) leader. Oracle: no task panics; an observer blockstore fed with the shreds
+/// the target sent as leader reconstructs every one of its blocks (never an invalid block - the
+/// leader is correct); the transactions in those blocks are, in order, exactly the transactions
+/// of admissible size that were sent (each once, nothing invented, oversized ones dropped), all of
+/// them once the target has led a full window after the flood; every node keeps finalising.
+async fn run_client(case: &Case, spec: &ClientSpec) -> Outcome {
+    use alpenglow::consensus::{Blockstore, BlockstoreEvent};
+    use alpenglow::shredder::{Shred, ValidatedShred};
+    let mut out = Outcome::default();
+    out.label("client-flood");
+    let n = 4usize;
+    let stakes = vec![1u64; n];
+    let target = spec.target as usize % n;
+    let switch = Switch::new(Box::new(|_f, _t, _i, _c| Some(20)));
+    switch.record_shreds(true);
+    let nodes: Vec<SimNode> = (0..n).map(|i| start_node(&switch, &stakes, i, Diss::Rotor)).collect();
+    let mut sent: Vec<Vec<u8>> = Vec::new();
+    let mut t = 0u64;
+    let end = spec.at_ms as u64 + 8_500;
+    let mut injected = false;
+    while t < end && !out.failed() {
+        if !injected && t >= spec.at_ms as u64 {
+            injected = true;
+            let mut i = 0u64;
+            for (count, len) in &spec.groups {
+                for _ in 0..*count {
+                    let mut payload = prng_bytes(case.seed ^ i, *len as usize);
+                    if payload.len() >= 8 {
+                        payload[..8].copy_from_slice(&i.to_le_bytes());
+                    }
+                    i += 1;
+                    let tx = Transaction(payload);
+                    switch.inject(addr(Iface::Tx, target), wincode::serialize(&tx).unwrap_or_default());
+                    sent.push(tx.0);
+                }
+            }
+        }
+        advance(100).await;
+        t += 100;
+        let panics = take_panics();
+        if !panics.is_empty() {
+            let p = panics.join(" | ");
+            out.violate(format!("C10/task-panic/{}/{}", panic_site(&p), panic_msg(&p)), format!("client flood {:?} towards validator {target} at {} ms; at {t} ms: {p}", spec.groups, spec.at_ms));
+        }
+    }
+    let mut fins = Vec::new();
+    for nd in &nodes {
+        fins.push(nd.finalized_slot().await);
+    }
+    for nd in &nodes {
+        nd.cancel.cancel();
+        nd.task.abort();
+    }
+    out.trace = Some(switch.trace_hash());
+    if out.failed() {
+        return out;
+    }
+    out.nontrivial = sent.len() >= 62;
+    // --- what the target disseminated as leader, as a follower sees it
+    let pk = keys().sig[target].to_pk();
+    let mut obs = crate::fixtures::blocks::Store::new();
+    let mut seen: std::collections::BTreeSet<(u64, u64, u64)> = std::collections::BTreeSet::new();
+    let mut blocks: Vec<(u64, alpenglow::BlockId)> = Vec::new();
+    let mut invalid: Vec<u64> = Vec::new();
+    for (from, _to, bytes) in switch.take_shred_log() {
+        if from != target {
+            continue;
+        }
+        let Some(p) = ShredParts::parse(&bytes) else { continue };
+        if (p.slot / 4 % n as u64) as usize != target || !seen.insert((p.slot, p.slice_index, p.shred_index)) {
+            continue;
+        }
+        let Ok(shred) = alpenglow::network::deserialize::<Shred>(&bytes) else { continue };
+        let Ok(v) = ValidatedShred::try_new(shred, None, &pk) else {
+            out.violate("C10/client/leader-sent-invalid-shred", format!("slot {} slice {} shred {}", p.slot, p.slice_index, p.shred_index));
+            return out;
+        };
+        let _ = obs.store.add_shred_from_dissemination(v).await;
+        for e in obs.drain() {
+            match e {
+                BlockstoreEvent::Block { slot, block_info } => blocks.push((slot.inner(), (slot, block_info.verif_hash().clone()))),
+                BlockstoreEvent::InvalidBlock(s) => invalid.push(s.inner()),
+                _ => {}
+            }
+        }
+    }
+    out.checks += 1;
+    if !invalid.is_empty() {
+        out.violate(
+            "C10/client/correct-leaders-block-undecodable",
+            format!("client flood {:?} towards validator {target} at {} ms: a follower fed with the shreds the correct leader {target} disseminated flags slots {invalid:?} as invalid", spec.groups, spec.at_ms),
+        );
+        return out;
+    }
+    blocks.sort();
+    let mut included: Vec<Vec<u8>> = Vec::new();
+    for (_, id) in &blocks {
+        if let Some(b) = obs.store.get_block(id) {
+            let (_, _, _, txs) = b.verif_parts();
+            included.extend(txs.iter().map(|t| t.0.clone()));
+        }
+    }
+    let accepted: Vec<&Vec<u8>> = sent.iter().filter(|p| p.len() <= alpenglow::MAX_TRANSACTION_SIZE).collect();
+    out.checks += 1;
+    let is_prefix = included.len() <= accepted.len() && included.iter().zip(&accepted).all(|(a, b)| a == *b);
+    if !is_prefix {
+        let first_bad = included.iter().zip(&accepted).position(|(a, b)| a != *b).unwrap_or(accepted.len().min(included.len()));
+        out.violate(
+            "C10/client/blocks-do-not-carry-the-sent-transactions",
+            format!(
+                "client flood {:?} towards validator {target}: {} admissible transactions sent, the leader's blocks carry {}; first difference at position {first_bad} (a transaction was lost, duplicated, reordered, invented or an oversized one included)",
+                spec.groups,
+                accepted.len(),
+                included.len()
+            ),
+        );
+        return out;
+    }
+    // the target led a whole window that started after the flood: everything must be in by now
+    out.checks += 1;
+    if included.len() < accepted.len() {
+        out.violate(
+            "C10/client/transactions-never-included",
+            format!("client flood {:?} towards validator {target} at {} ms: only {} of {} admissible transactions appear in the blocks it produced during the following 8.5 s (finalized slots {fins:?})", spec.groups, spec.at_ms, included.len(), accepted.len()),
+        );
+        return out;
+    }
+    out.checks += 1;
+    let expect = (end / 400).saturating_sub(12);
+    if fins.iter().any(|f| *f < expect) {
+        out.violate("C10/client/node-stopped-finalising", format!("client flood {:?} towards validator {target} at {} ms: finalized slots {fins:?} after {end} ms, expected at least {expect}", spec.groups, spec.at_ms));
+    }
+    out
+}
+
 async fn run(case: &Case) -> Outcome {
+    if let Some(spec) = &case.client {
+        return run_client(case, spec).await;
+    }
     let mut out = Outcome::default();
     let n = case.n as usize;
     let byz = case.byz as usize % n;
